@@ -438,6 +438,23 @@ def decide(prop, tier, seed, cfg, scratch, index, spec_dir, contracts_dir, evide
         else:
             undecided.append(u)
     bottom_bad = [b for b in bottoms if verdicts[b['uid']]['verdict'] != 'discharged']
+    # impl / derive inventory of the files that hold this property's units (trait impls outside any contract are trusted for
+    # the recorded inventory only)
+    inventory_changed = []
+    try:
+        inv_base = json.load(open(os.path.join(VERIF, 'inventory_baseline.json')))
+    except Exception:
+        inv_base = {}
+    for f_ in sorted(files_of_prop):
+        if f_ in inv_base:
+            try:
+                now = engine.item_inventory(os.path.join(engine.REPO, f_))
+            except Exception:
+                continue
+            added = [x for x in now if x not in inv_base[f_]]
+            removed = [x for x in inv_base[f_] if x not in now]
+            if added or removed:
+                inventory_changed.append('%s: %s' % (f_, '; '.join(['+ ' + x[:120] for x in added[:4]] + ['- ' + x[:120] for x in removed[:4]])))
     # OS-request frame (C14 / C19): a unit that now issues other kinds / numbers of OS requests than recorded is undecided
     frame_changed = []
     if prop in ('C14', 'C19'):
@@ -614,7 +631,7 @@ def decide(prop, tier, seed, cfg, scratch, index, spec_dir, contracts_dir, evide
     status = 'held'
     if violations:
         status = 'violation'
-    elif hard_global or undecided or lost or bottom_bad or changed_assumed or frame_changed or kani_undecided or (not proved and not known_hits):
+    elif hard_global or undecided or lost or bottom_bad or changed_assumed or frame_changed or inventory_changed or kani_undecided or (not proved and not known_hits):
         status = 'undecided'
     elif not verifier_ok and not only_known:
         status = 'undecided'
@@ -683,6 +700,7 @@ def decide(prop, tier, seed, cfg, scratch, index, spec_dir, contracts_dir, evide
             'known_findings_matched': [k.get('what') for k, _, _ in known_hits],
             'assumed_functions_modified': changed_assumed,
             'os_request_frame_changed': frame_changed,
+            'impl_inventory_changed': inventory_changed,
             'kani_units': [{kk: k.get(kk) for kk in ('name', 'verdict', 'failed_checks', 'wall_s', 'cmd', 'backs', 'complete', 'what', 'mode', 'counterexample')}
                            for k in kani_results + tiebreaks],
             'kani_standby': [{'name': k['name'], 'mode': k['mode'], 'backs': k['backs'], 'what': k['what']} for k in all_kani
@@ -711,6 +729,8 @@ def decide(prop, tier, seed, cfg, scratch, index, spec_dir, contracts_dir, evide
             reasons.append('Kani unit %s undecided (rc %s)' % (k['name'], k['rc']))
         for c_ in changed_assumed:
             reasons.append('function with an ASSUMED contract was modified: %s' % c_)
+        for c_ in inventory_changed:
+            reasons.append('trait impls / derives outside any contract changed (their trait-level contracts were accepted for the recorded inventory): %s' % c_)
         for c_ in frame_changed:
             reasons.append('the OS requests issued by this function differ from its recorded frame: %s' % c_)
         for l in lost:
@@ -775,6 +795,7 @@ def selftest_seeded(prop):
             tag = hashlib.sha1(os.path.realpath(tmp).encode()).hexdigest()[:10]
             shutil.rmtree(os.path.join(VERIF, 'cache', 'replay-target-' + tag), ignore_errors=True)
             shutil.rmtree(os.path.join(VERIF, 'cache', 'replay-target-' + tag + '-nightly'), ignore_errors=True)
+            shutil.rmtree(os.path.join(VERIF, 'cache', 'replay-target-' + tag + '-simd'), ignore_errors=True)
             shutil.rmtree(os.path.join(os.environ.get('VERIF_SCRATCH', '/var/tmp'), 'replay_' + tag), ignore_errors=True)
     return res
 
